@@ -109,14 +109,42 @@ def e1(prog, ctx, L):
         tb = cfg.block_of(st)
         ok1, c1 = cfg.all_paths_cut(tb, lambda lit, b, i: lit is not None and lit.kind == "truth" and lit.atom == "has_wsp" and not lit.pol, start=L.header)
         # ... about the character the cursor stands on when the key has been taken off (`data`), not about some character further right
-        def next_char_no_delim(lit, b, i):
+        # the cursor under other names: locals of (inlined) helpers that receive it, skip blanks from it, hand it back
+        curs = set(["data"])
+        grew = True
+        while grew:
+            grew = False
+            for l9, r9, s9 in f.assignments():
+                nm9 = l9["name"] if isinstance(l9, dict) else render(l9)
+                if nm9 in curs or r9 is None:
+                    continue
+                r0 = r9.strip()
+                if r0.k == "DeclRefExpr" and r0.j.get("name") in curs and "$" in nm9 + r0.j.get("name"):
+                    curs.add(nm9)
+                    grew = True
+        cur_atoms = set("*" + c9 for c9 in curs) | set(c9 + "[0]" for c9 in curs)
+
+        def next_char_no_delim(lit, b, i, depth=0):
             if lit is None or lit.pol:
                 return False
-            if lit.kind == "truth" and lit.atom in ("*data", "data[0]"):
+            if lit.kind == "truth" and lit.atom in cur_atoms:
                 return True
             if _lit_calls(lit, "strchr"):
                 a9 = [render(x) for x in lit.node.walk() if x.k == "CallExpr" and x.j.get("callee") == "strchr" for x in x.call_args()[1:2]]
-                return any(t9 in ("*data", "data[0]") for t9 in a9)
+                return any(t9 in cur_atoms for t9 in a9)
+            if lit.kind == "truth" and lit.node is not None and lit.node.strip().k == "DeclRefExpr" and lit.node.strip().j.get("dk") == "local" and depth == 0:
+                # `at_delim = *p && strchr(delim, *p) != NULL; if (!at_delim)`: the flag is false when one of its conjuncts is
+                rhs9 = cfg._flag_def(lit.node.strip().j["name"], b)
+                if rhs9 is not None:
+                    from sa.cond import norm_cond as _nc
+
+                    def parts(e):
+                        e2 = e.strip()
+                        if e2.k == "BinaryOperator" and e2.j.get("op") == "&&":
+                            return parts(e2.children[0]) + parts(e2.children[1])
+                        return [e2]
+                    ps = parts(rhs9)
+                    return bool(ps) and all(next_char_no_delim(_nc(x9).negated(), b, i, 1) for x9 in ps)
             return False
         ok2, c2 = cfg.all_paths_cut(tb, next_char_no_delim, start=L.header)
         if ok1 and ok2:
@@ -154,6 +182,23 @@ def e1(prog, ctx, L):
         if ok and cut:
             okg = True
             ctx.ok("E1", "missing file gives ECONF_NOFILE", r.where, "return behind `lstat(...) == -1`")
+            break
+    if not okg:
+        # through a status variable (err = ECONF_NOFILE; ... return err;): what the function returns on the consistent paths behind the
+        # failed lstat() of the file itself
+        want9 = prog.enumerators.get("ECONF_NOFILE")
+        pn9 = gate.params[1]["name"] if len(gate.params) > 1 else None
+        for (b, i, s2) in gcfg.edges():
+            lit = gcfg.edge_lit(b, i)
+            if lit is None or lit.kind != "eq" or not lit.pol or "lstat" not in lit.atom or s2 is None:
+                continue
+            lc = [x for x in lit.node.walk() if x.k == "CallExpr" and x.j.get("callee") == "lstat"]
+            if not lc or not lc[0].call_args() or render(lc[0].call_args()[0]) != pn9:
+                continue
+            vals9 = gcfg.returned_values_from(s2)
+            if vals9 == {want9}:
+                okg = True
+                ctx.ok("E1", "missing file gives ECONF_NOFILE", gcfg.blocks[b].cond.where, "every consistent path behind `lstat(%s, ..) == -1` returns ECONF_NOFILE" % pn9)
             break
     if not okg:
         ctx.fail("E1", "missing file gives ECONF_NOFILE", gate.where, "lstat failure does not return ECONF_NOFILE", key="nofile:lstat")
